@@ -25,6 +25,7 @@
    failed call returns the buffer as the Rust code leaves it, partially written sub-values and
    `-3` placeholders included.  That is what `add_value` truncates. *)
 From SV Require Import Base.Prelude Base.Bytes Model.Vint Model.Cql.
+From SV Require Model.Request.     (* C09's model of the built-in SerializeRow impls (PART 3) *)
 Open Scope N_scope.
 
 (* ====================================================================================== *)
@@ -755,6 +756,38 @@ Definition from_row (cols : list ctype) (vals : list (carrier * kval)) : result 
 Definition closure_count (parts : list N) : result row_err N :=
   let total := fold_left N.add parts 0 in
   if u16_max <? total then Err RE_TooManyValues else Ok total.
+
+(* Rows bound BY NAME: `impl SerializeRow for BTreeMap<String | &str, T>` / `HashMap<String | &str, T, S>`
+   (serialize/row.rs impl_serialize_row_for_map!) and, for completeness, the unit / sequence rows,
+   through SerializedValues::from_serializable.  The binding of a row to the statement's columns is
+   C09's model [Request.bind_row] (per column `self.get(col.name())` -> ValueMissingForColumn,
+   serialize_column, then the lexicographically first unused key -> NoColumnWithName, then the u16
+   count check), imported, not copied; it is instantiated here with the real value serialiser:
+   a value is a (carrier, tree) pair, a column type a [ctype], and one value for one column is
+   [ser_out] through a sized CellWriter. *)
+Definition cell_of_out (o : bytes) : Request.cell :=
+  if bytes_eqb o null_marker then Request.CNull
+  else if bytes_eqb o unset_marker then Request.CUnset
+  else Request.CVal (skipn 4 o).
+Definition cell_wire (c : Request.cell) : bytes :=
+  match c with
+  | Request.CNull => null_marker
+  | Request.CUnset => unset_marker
+  | Request.CVal b => framed b
+  end.
+Definition named_vser (kv : carrier * kval) (t : ctype) : option Request.cell :=
+  match ser_buf (fst kv) true t (snd kv) [] with
+  | (o, None) => Some (cell_of_out o)
+  | (_, Some _) => None
+  end.
+Definition typed_row := Request.row (carrier * kval).
+Definition sv_of_cells (cells : list Request.cell) : svals :=
+  {| sv_bytes := concat (map cell_wire cells); sv_count := N.of_nat (List.length cells) |}.
+Definition from_typed_row (cols : list (bytes * ctype)) (r : typed_row) : result Request.row_err svals :=
+  match Request.bind_row (carrier * kval) ctype named_vser cols r with
+  | Ok cells => Ok (sv_of_cells cells)
+  | Err e => Err e
+  end.
 
 (* The same state held as the list of appended chunks, most recent first: what the correspondence
    driver uses for long sequences (lemma add_value_chunks: it is add_value on the concatenation). *)
